@@ -185,7 +185,8 @@ namespace OP2Utility::Archive
 
 		// Seek to beginning of first internal chunk (provided it exists)
 		// Note: this seeks past the initial format tag (such as RIFF and WAVE)
-		uint32_t currentPosition = sizeof(RiffHeader);
+		// Note: A 64 bit position is required. A 32 bit position wraps around for chunk lengths near 4 GiB
+		uint64_t currentPosition = sizeof(RiffHeader);
 		seekableStreamReader.Seek(currentPosition);
 
 		ChunkHeader header;
